@@ -167,6 +167,29 @@ def check(ctx):
                    "a parameter's default value is not written on every iteration over the references (e.g. skipped for some values), leaving constant bytes underneath un-overlaid: " + "; ".join(bad[:2]), f.loc(b))
             a = tbf.joperand(c["args"][1])
             ctx.ob("c.atomic", "default-value-source", "default_value" in show(a), "the default writer must write the definition's default_value, found " + show(a), f.loc(b))
+    # the enumeration constraint is a set membership: the GSD lists the permitted values in file order (not sorted), so the test must not
+    # depend on the order of the list
+    nm = 0
+    for f in P.crate_fns(CR):
+        if not (f.name.startswith("PrmValueConstraint::") and f.kind == "assoc") or f.j.get("derived"):
+            continue
+        tbf = TermBuilder(f, P)
+        for b, c in call_sites(f):
+            cal = c.get("callee") or ""
+            if not c["args"]:
+                continue
+            a0 = show(tbf.joperand(c["args"][0]))
+            if "Enum" not in a0:
+                continue
+            short = cal.split("::")[-1]
+            if short in ("deref", "as_slice", "iter", "len", "fmt", "new_debug", "new_display", "clone"):
+                continue
+            nm += 1
+            ok = short in ("contains", "any")
+            ctx.ob("c.atomic", "enum-membership|%s|%s" % (f.name.split("::")[-1], short), ok,
+                   "the enumeration constraint is tested with `%s`, which is not an order-independent membership test of the listed values "
+                   "(binary_search needs a sorted list; GSD files list values in any order)" % short, f.loc(b))
+    ctx.anchor("membership tests of enumeration constraints", nm, 2)
     for name in ("PrmBuilder::set_prm", "PrmBuilder::set_prm_from_text"):
         f = ctx.need_fn(CR, name)
         if f is None:
